@@ -56,6 +56,7 @@ def _alphabet(folder):
 class Machine:
     def __init__(self, ctx, folder):
         self.fn = ctx.index.get_function(SCC, "SCCReader._handle_double_command")
+        self.rcls = ctx.index.get_class(SCC, "SCCReader")
         self.folder = folder
         init = ctx.index.get_function(SCC, "SCCReader.__init__")
         reset = ctx.index.get_class(SCC, "SCCReader").find_method("_reset")
@@ -85,7 +86,7 @@ class Machine:
 
     def step(self, st, word):
         """(dropped?, next state)"""
-        obj = Stub("reader", dict(st))
+        obj = Stub("reader", dict(st), cls=self.rcls)
         try:
             r = self.folder.call_function(self.fn, [word], self_value=obj)
         except FoldRaise as e:
